@@ -97,9 +97,24 @@ def carry_case(rng):
             % (tr, sbc, sbb, rng.choice([100, 256]), msgs)]
 
 
+def lag_case(rng):
+    """a receiver that lags by more than RCVHWM behind a sender that then goes quiet: the tail must still arrive (the
+    direct inproc pipe and its reader task, the session's ingress hand-over on tcp/ipc)"""
+    tr = rng.choice(["inproc", "inproc", "tcp", "ipc"])
+    sty, rty = rng.choice([("PUSH", "PULL"), ("PUSH", "PULL"), ("DEALER", "ROUTER"), ("DEALER", "DEALER")])
+    if tr == "inproc" and rty == "DEALER":
+        rty = "ROUTER"
+    n = rng.choice([40, 60, 90])
+    msgs = ";".join("0p%dx%d" % (rng.choice([5, 20, 300]), i + 1) for i in range(n))
+    return ["stream tr=%s,rt=%s,when=after,pace=%d type=%s,sndhwm=%d type=%s,rcvhwm=%d,rbc=%d %s" % (
+        tr, rng.choice(["ct", "mt"]), rng.choice([1, 3]), sty, rng.choice([2, 5, 50]), rty, rng.choice([1, 2, 5]),
+        rng.choice([1, 8, 64]), msgs)]
+
+
 def gen(rng, tier):
     n = 40 if tier == "quick" else 600
     cases = [carry_case(rng) for _ in range(n // 4)]
+    cases += [lag_case(rng) for _ in range(n // 5)]
     cases += [one_case(rng, tier, big_ok=(tier != "quick" or i % 5 == 0)) for i in range(n)]
     return cases
 
